@@ -25,6 +25,9 @@ pub struct DriveOpts {
     pub reps: Option<usize>,
     /// run every read-only observer (XML, DOT, Debug, Display, v_print, inspect) after every so many calls (0: never)
     pub observe: usize,
+    /// k > 0: put the label VALUES no text denotes (odd_labels, starting at the k-th) among the labels of any profile;
+    /// k = 1 puts "ab" and the Str "a b" (which print alike) side by side
+    pub odd: usize,
     pub progress: Option<PathBuf>,
 }
 
@@ -209,9 +212,9 @@ pub fn run(o: &DriveOpts, out: &mut dyn Write, tid: usize) -> Value {
     let mut rng = StdRng::seed_from_u64(o.seed);
     let mut w = World::new(o.n, o.cap, o.scratch.clone());
     let mut labels = label_pool(o.n);
-    if matches!(o.profile.as_str(), "twin" | "world") {
+    if matches!(o.profile.as_str(), "twin" | "world") || o.odd > 0 {
         let odd = odd_labels();
-        let k = (o.seed as usize) % odd.len();
+        let k = if o.odd > 0 { (o.odd - 1) % odd.len() } else { (o.seed as usize) % odd.len() };
         labels.insert(1, odd[k].clone());
         labels.insert(2, odd[(k + 1) % odd.len()].clone());
         labels.insert(0, odd[(k + 4) % odd.len()].clone());
